@@ -13,8 +13,8 @@ import (
 )
 
 // GetTargetChangeHash computes the hash that tells us if a target has changed.
-// dependencyHashes are the change hashes of the direct dependencies
-func GetTargetChangeHash(target model.Target, dependencyHashes []string) (string, error) {
+// dependencyHashes maps the label of every direct dependency to its output hash
+func GetTargetChangeHash(target model.Target, dependencyHashes map[string]string) (string, error) {
 	targetDefinitionHash, err := hashTargetDefinition(target, dependencyHashes)
 	if err != nil {
 		return "", err
@@ -36,14 +36,16 @@ func GetTargetChangeHash(target model.Target, dependencyHashes []string) (string
 // (and every list with its element count) so that no two different definitions can
 // produce the same byte stream, e.g. by moving bytes from the end of the command to
 // the start of the first input or by using the list separator inside an element.
-func hashTargetDefinition(target model.Target, dependencyHashes []string) (string, error) {
+func hashTargetDefinition(target model.Target, dependencyHashes map[string]string) (string, error) {
 	hasher := GetHasher()
 
 	writeFramed(hasher, target.Label.String())
 	writeFramed(hasher, target.Command)
 	writeFramedList(hasher, sortedUnique(target.Inputs))
 	writeFramedList(hasher, sortedStrings(target.OutputDefinitions()))
-	writeFramedList(hasher, sortedStrings(dependencyHashes))
+	// Each dependency's output hash is tied to the dependency's label: an output hash only covers
+	// package-relative paths, so two dependencies that swap their outputs must change the key.
+	writeFramedKeyValues(hasher, dependencyHashes)
 	writeFramedKeyValues(hasher, target.Fingerprint)
 	if !target.IsMultiplatformCache() {
 		writeFramed(hasher, config.Global.GetPlatform())
